@@ -20,7 +20,7 @@ func FreeSel(t *rapid.T) bx.Sel {
 		parts := make([]string, n)
 		for i := range parts {
 			if i == 0 && rapid.IntRange(0, 9).Draw(t, "identFirst") < 8 {
-				parts[i] = freeIdents[rapid.IntRange(0, len(freeIdents)-1).Draw(t, "ident")]
+				parts[i] = freeIdent(t, "ident")
 				continue
 			}
 			switch rapid.IntRange(0, 2).Draw(t, "partKind") {
@@ -52,6 +52,22 @@ func FreeLiteral(t *rapid.T) string {
 	}
 }
 
+// FreeExprKW is FreeExpr with bare keywords admitted as selector parts and binding names.
+func FreeExprKW(t *rapid.T, depth int) bx.Expr {
+	AllowKeywordSelectors = true
+	defer func() { AllowKeywordSelectors = false }()
+	return FreeExpr(t, depth)
+}
+
+var kwIdents = []string{"in", "not", "and", "or", "is", "empty", "contains", "matches", "any", "all", "as"}
+
+func freeIdent(t *rapid.T, label string) string {
+	if AllowKeywordSelectors && rapid.IntRange(0, 3).Draw(t, "kw") == 0 {
+		return kwIdents[rapid.IntRange(0, len(kwIdents)-1).Draw(t, "kwi")]
+	}
+	return freeIdents[rapid.IntRange(0, len(freeIdents)-1).Draw(t, label)]
+}
+
 // FreeExpr draws an arbitrary expression tree of at most the given depth.
 func FreeExpr(t *rapid.T, depth int) bx.Expr {
 	c := rapid.IntRange(0, 99).Draw(t, "fkind")
@@ -71,8 +87,8 @@ func FreeExpr(t *rapid.T, depth int) bx.Expr {
 		return &bx.Or{L: FreeExpr(t, depth-1), R: FreeExpr(t, depth-1)}
 	default:
 		q := &bx.Quant{All: rapid.Bool().Draw(t, "fall"), Sel: FreeSel(t), Mode: bx.BindMode(rapid.IntRange(0, 3).Draw(t, "fmode"))}
-		n1 := freeIdents[rapid.IntRange(0, len(freeIdents)-1).Draw(t, "fn1")]
-		n2 := freeIdents[rapid.IntRange(0, len(freeIdents)-1).Draw(t, "fn2")]
+		n1 := freeIdent(t, "fn1")
+		n2 := freeIdent(t, "fn2")
 		switch q.Mode {
 		case bx.BindDefault, bx.BindValue:
 			q.Value = n1
